@@ -326,7 +326,7 @@ PROPS = {
         "trusted": [KERNELS["eigh"], KERNELS["float"]],
     },
     "C04": {
-        "lean": "SymfcModel.Props.C04", "gen": ["PermTables", "Cutoff", "PipelineSkel"],
+        "lean": "SymfcModel.Props.C04", "gen": ["PermTables", "Cutoff", "PipelineSkel", "PipelineFlow"],
         "corr": [{"fn": C.corr_perm_stage, "quick": {"n_cases": 36}, "thorough": {"n_cases": 300}},
                  {"fn": C.corr_combinations, "quick": {"n_cases": 18}, "thorough": {"n_cases": 120}}],
         "oracle": [{"name": "first_order_basis", "fn": o_basis_o1, "quick": {"n": 8}, "thorough": {"n": 40}, "search": {"n": 24}},
